@@ -2,7 +2,7 @@
    Statements only; the proofs are in Proofs/Skeleton.v and Proofs/HostCmd.v.
    Gen/C03Skeleton.v is regenerated from bumble/controller.py and bumble/hci.py on every run. *)
 From Coq Require Import ZArith List Bool.
-From BV Require Import Model.Skeleton Model.HostCmd Model.CtrlProc Proofs.Skeleton Proofs.HostCmd Proofs.CtrlProc Gen.C03Skeleton.
+From BV Require Import Model.Skeleton Model.HostCmd Model.HostShape Model.CtrlProc Model.CtrlProcShape Proofs.Skeleton Proofs.HostCmd Proofs.CtrlProc Gen.C03Skeleton Gen.C03HostShape Gen.C03ProcShape.
 Import ListNotations.
 Open Scope Z_scope.
 
@@ -166,6 +166,57 @@ Theorem C03_peer_gone_refuted :
   p_quiet s = true /\ p_open s = [PFeat 1] /\ forallb (open_ended s) (p_open s) = false.
 Proof. exact peer_gone_refuted. Qed.
 Print Assumptions C03_peer_gone_refuted.
+
+(* ---- arbitrary interleavings of commands, peer actions and single PDU deliveries (commands
+   issued while PDUs are in flight, a peer disconnecting while a request is on its way, stale
+   responses, ...), by complete evaluation over a bounded scope: from the initial state and from
+   a state with an LE and a classic connection, after EVERY schedule of at most 5 steps over the
+   12-letter alphabet, delivering what is in flight leaves only open-ended procedures.
+   (The thorough tier evaluates depth 6 as a per-run obligation.) *)
+Theorem C03_bounded_scope_checked :
+  all_ok 5 (p_init [2; 3]) = true /\ all_ok 5 connected_state = true.
+Proof. vm_compute. split; reflexivity. Qed.
+Print Assumptions C03_bounded_scope_checked.
+
+Theorem C03_pending_has_cause_interleaved : forall xs,
+  (length xs <= 5)%nat -> Forall (fun o => In o alphabet) xs ->
+  concludes (fst (p_run (p_init [2; 3]) xs)) = true /\
+  concludes (fst (p_run connected_state xs)) = true.
+Proof.
+  intros xs L F. destruct C03_bounded_scope_checked as [A B].
+  split; [exact (all_ok_spec 5 _ A xs L F) | exact (all_ok_spec 5 _ B xs L F)].
+Qed.
+Print Assumptions C03_pending_has_cause_interleaved.
+
+Example C03_connected_state_nonvacuous :
+  map (fun k => (k_handle k, k_addr k)) (p_conns connected_state) = [(1, 2); (2, 3)] /\
+  p_peer_conn connected_state = [2] /\ p_quiet connected_state = true.
+Proof. vm_compute. auto. Qed.
+
+(* ---------------------------------------------------------------- the models match the source *)
+
+(* per-run obligations: the command path of bumble/host.py has the shape Model/HostCmd.v was written
+   against (semaphore acquired outside the try block, assertions and pending_* set-up before it,
+   what the finally block clears and when it releases, where on_command_processed completes the
+   future and when it releases instead, the opcode-0 branch, which functions touch the semaphore /
+   pending_* at all, one initial permit) ... *)
+Theorem C03_host_matches_source :
+  C03HostShape.send_command = expected_send_command /\
+  C03HostShape.command_processed = expected_command_processed /\
+  C03HostShape.command_complete_event = expected_command_complete_event /\
+  C03HostShape.command_status_event = expected_command_status_event /\
+  C03HostShape.flush = expected_flush /\
+  C03HostShape.transport_lost = expected_transport_lost /\
+  C03HostShape.touchers = expected_touchers /\
+  C03HostShape.semaphore_permits = h_sem h_init.
+Proof. vm_compute. repeat split; reflexivity. Qed.
+Print Assumptions C03_host_matches_source.
+
+(* ... and the 38 functions of controller.py / link.py that Model/CtrlProc.v is a reading of are,
+   statement for statement, the ones the model was validated against *)
+Theorem C03_procedures_match_source : C03ProcShape.shapes = CtrlProcShape.expected.
+Proof. vm_compute. reflexivity. Qed.
+Print Assumptions C03_procedures_match_source.
 
 (* non-vacuity: a run that satisfies the hypotheses, opens and concludes every kind of procedure *)
 Example C03_procedures_nonvacuous :
